@@ -12,6 +12,28 @@ sh("git -C /repo worktree remove --force %s; rm -rf %s" % (wt, wt))
 rc, o = sh("git -C /repo worktree add -q --detach %s HEAD" % wt); assert rc == 0, o
 try:
     demo = os.path.join(inc, "m%s_demo.cpp" % k)
+    script = os.path.join(inc, "m%s_demo.sh" % k)
+    if os.path.exists(script):
+        # two-configuration demo: the script builds and compares; run it on the clean and on the patched tree
+        rc_clean, o_clean = sh("sh %s %s" % (script, wt), timeout=900)
+        rc, o = sh("git -C %s apply %s" % (wt, os.path.abspath(os.path.join(inc, "m%s.patch" % k)))); assert rc == 0, o
+        rc_mut, o_mut = sh("sh %s %s" % (script, wt), timeout=900)
+        rc_suite, o_suite = sh("/verif/tools/wt_test.sh %s" % wt, timeout=1800)
+        ok = rc_clean == 0 and rc_mut == 1 and rc_suite == 0
+        print("clean demo exit=%d, patched demo exit=%d, suite: %s" % (rc_clean, rc_mut, o_suite.strip().splitlines()[-1] if o_suite.strip() else rc_suite))
+        if ok:
+            out = "/verif/seeded/%s-m%s" % (prop, k)
+            os.makedirs(out, exist_ok=True)
+            shutil.copy(os.path.join(inc, "m%s.patch" % k), os.path.join(out, "patch.diff"))
+            shutil.copy(demo, os.path.join(out, "m%s_demo.cpp" % k)); shutil.copy(script, os.path.join(out, "m%s_demo.sh" % k))
+            json.dump({"property": prop, "mutation": "m%s" % k, "demo_build": "sh m%s_demo.sh <worktree>  (builds static AVX2 and static SSE / dispatch, compares outputs)" % k,
+                       "confirmed": {"demo_exit_clean": rc_clean, "demo_exit_patched": rc_mut, "suite_with_patch": o_suite.strip().splitlines()[-1]},
+                       "ran": ["git worktree add <worktree>", "sh demo.sh <worktree> on clean tree", "git apply patch.diff", "sh demo.sh <worktree>", "tools/wt_test.sh <worktree>"],
+                       "patched_demo_output_tail": o_mut[-600:]}, open(os.path.join(out, "meta.json"), "w"), indent=1)
+            print("CONFIRMED ->", out)
+        else:
+            print("NOT CONFIRMED"); print(o_clean[-500:]); print(o_mut[-500:]); print(o_suite[-300:])
+        sys.exit(0 if ok else 1)
     first = open(demo).readline()
     m = re.search(r"(g\+\+.*)$", first); assert m, first
     cmd = m.group(1).strip()
